@@ -18,6 +18,26 @@ CLAIMED = {
          "The level-A actions fix the error code after every call (0 on success, the call's own code on failure, mirrored process-wide) and the final status of every handed-back job; recorded executions are validated against that, together with a field-by-field descriptor comparison for every returned job and a sweep of imb_get_strerror over the integer classes.",
          "descriptor fields named by the property are compared; length fields are informational (the CMAC path rewrites msg_len_to_hash_in_bits)",
          "TLA+ trace validation (errno/status per call) + descriptor snapshots", "5 C14"),
+ "C06": ("model_checking",
+         "The whole finite product of suites (21 952 cells) is evaluated by TLC against the design-level dispatch properties (spec/Dispatch.tla: rows in range, row injectivity, AEAD-only-with-partner, stage-plan shape) and walked on the real library: for every cell, session acceptance and suite ids, job-API and burst-API execution with the stage hook recording each table dispatch, composition oracle and burst=job equality; spec/Trace_Dispatch.tla requires exactly the acceptance, error code, table rows and stage order the specification computes.",
+         "that the single-algorithm jobs equal the published algorithms is C01/C02; CUSTOM, PON and SGL suites are checked for acceptance/suite ids only",
+         "exhaustive enumeration in TLC + trace validation of the per-cell walk (stage hook H1)", "5 C06"),
+ "C07": ("exploration",
+         "Every caller object of every executed job ends (or starts) flush against an inaccessible page; single-job sweep over all catalogue suites x every message length 0..N x both placements x variants plus random offsets/tag/AAD/IV lengths, with source snapshot, guard bytes and in-place twin; multi-job schedules run in the same arena and are validated by the trace specification with the memory conjuncts on.",
+         "over-reads that stay inside the last page of an object are invisible to the MMU; scheduler-level ranges are modelled in the level-B lane model",
+         "guard-page exploration driven by the catalogue; TLA+ trace validation for the multi-job part", "5 C07"),
+ "C08": ("model_checking",
+         "Selection: spec/CpuSelect.tla (requirements per variant, flag adjustment, auto) is checked by TLC over all 2^15 feature-group subsets and every recorded selection of the real library under the feature-mask hook is validated against it (clean MISSING_CPUFLAGS failure: unbound manager, no self-test, no crash). Equality: cross-variant differential over the catalogue with cross-variant decryption.",
+         "avx2_t3/t4 cannot run on this host; the differential part trusts no variant but cannot see a defect common to all",
+         "TLC over the selection function + trace validation (hook H2); cross-variant differential", "5 C08"),
+ "C18": ("exploration",
+         "All manager entry points are called through an assembly trampoline that checks rbx, rbp, r12-r15, rsp, DF and MXCSR on return; single-job sweep over all suites/lengths/variants and multi-job schedules whose abi bit is a conjunct of the trace specification (submit that parks, submit that completes, flush at every occupancy, bursts).",
+         "direct-API functions are covered by the C09/C11 drivers' use of the same trampoline",
+         "ABI trampoline; TLA+ trace validation supplies the lane-state coverage", "5 C18"),
+ "C20": ("fault_enumeration",
+         "spec/SelfTest.tla models the KAT sequence, the START/CORRUPT/PASS|FAIL call-back protocol and the gate (pass bit and error code = conjunction of all results); TLC checks FailExactlyFaulted / GateIsConjunction / AnnouncesAll and termination for all fault sets of an abstract list; every recorded run of the real self-test (fault-free, every single entry, pairs, random subsets, 7 variants, explicit and auto init) must produce exactly the stream, bits and error code the specification yields, and the learned list must cover the documented algorithms.",
+         "corruption can only be injected where the library makes the CORRUPT call-back",
+         "TLA+ model checking + fault enumeration validated against the spec", "5 C20"),
 }
 
 NA = {
